@@ -294,6 +294,10 @@ def check_join(ctx, tc, e, a, full, best):
     try:
         obj = tc.cls.from_parameters({'entrypoint': e_py, 'value': terms.value_json(plain(tc.etype[e]), a)})
         got = terms.pval(plain(T), obj.to_micheline_value())
+        # the pair is a mapping with two keys: the order in which the caller happened to write them means nothing
+        other = terms.pval(plain(T), tc.cls.from_parameters({'value': terms.value_json(plain(tc.etype[e]), a), 'entrypoint': e_py}).to_micheline_value())
+        if other != got:
+            raise ValueError('value-first dict gives %s, entrypoint-first %s' % (other, got))
     except Exception as ex:   # noqa
         ctx.mismatch('C13:from_parameters:%s:raises-%s%s' % (kind, exc_class(ex), coll), 'parameter %s: from_parameters(%r, %s) raised %r; Tezos: %s' % (
             michelson(T), e_py, a, ex, full), case)
